@@ -2,9 +2,9 @@
 # tools/confirm_seed.sh <Cxx> <k> : confirms a seeded change produced in /tmp/seed/<Cxx>/_seed/<k>
 # (applies in that scratch worktree, suite must pass, demo must fail; reverted: demo must pass),
 # runs ./check against a scratch copy with the patch, and stores it under /verif/seeded/<Cxx>_<k>/.
-ID="$1"; K="$2"; WT=/tmp/seed/$ID; S=$WT/_seed/$K
+ID="$1"; K="$2"; ROOT="${SEEDROOT:-/tmp/seed}"; TAG="${SEEDTAG:-}"; WT=$ROOT/$ID; S=$WT/_seed/$K; N=${ID}_${TAG}$K
 cd "$WT" || exit 2
-git checkout -q -- . ; git apply "$S/patch.diff" || { echo "APPLY FAILED"; exit 3; }
+git checkout -q --detach $(git -C /repo rev-parse HEAD) 2>/dev/null; git checkout -q -- . ; git apply "$S/patch.diff" || { echo "APPLY FAILED"; exit 3; }
 PYTHONPATH=$WT /venv/bin/python -m pytest -q -p no:cacheprovider --timeout=900 test 2>&1 | tail -1 > $S/_suite.txt
 PYTHONPATH=$WT timeout 600 /venv/bin/python $S/demo.py > $S/_demo_with.txt 2>&1; W=$?
 git checkout -q -- .
@@ -13,15 +13,15 @@ echo "suite: $(cat $S/_suite.txt) | demo with change exit=$W | without exit=$WO"
 cd /verif
 /verif/tools/try_patch.sh $S/patch.diff ${3:-$ID} quick > $S/_check.txt 2>&1; C=$?
 grep -E "VIOLATION|KNOWN|exit=" $S/_check.txt
-mkdir -p /verif/seeded/${ID}_$K
-cp $S/patch.diff $S/demo.py /verif/seeded/${ID}_$K/
-/venv/bin/python - "$S" "$ID" "$K" "$W" "$WO" "$C" <<'PY'
+mkdir -p /verif/seeded/$N
+cp $S/patch.diff $S/demo.py /verif/seeded/$N/
+/venv/bin/python - "$S" "$ID" "$N" "$W" "$WO" "$C" <<'PY'
 import json,sys
-S,ID,K,W,WO,C=sys.argv[1:7]
+S,ID,N,W,WO,C=sys.argv[1:7]
 try: meta=json.load(open(S+'/meta.json'))
 except Exception: meta={}
 try:
-    old=json.load(open('/verif/seeded/%s_%s/meta.json'%(ID,K)))
+    old=json.load(open('/verif/seeded/%s/meta.json'%N))
     for k in ('strengthened','first_check_result'):
         if k in old: meta[k]=old[k]
     if 'first_check_result' not in meta and 'check_result' in old: meta['first_check_result']=old['check_result']
@@ -29,6 +29,5 @@ except Exception: pass
 meta.update({"property":ID,"confirmed":{"suite":open(S+'/_suite.txt').read().strip(),"demo_exit_with_change":int(W),"demo_exit_without_change":int(WO),
  "how":"tools/confirm_seed.sh: patch applied in a scratch git worktree of /repo, full pytest suite, demo.py with and without the change; then tools/try_patch.sh (./check against a scratch copy with the patch via PERSIM_REPO)"},
  "check_result":{"exit":int(C),"lines":[l.strip() for l in open(S+'/_check.txt') if 'VIOLATION' in l or 'KNOWN' in l][:5]}})
-json.dump(meta,open('/verif/seeded/%s_%s/meta.json'%(ID,K),'w'),indent=1)
+json.dump(meta,open('/verif/seeded/%s/meta.json'%N,'w'),indent=1)
 PY
-rm -rf /verif/evidence/replay
